@@ -6,6 +6,11 @@ Domain.  A case is one straight-line `@guppy.comptime` function `main` with 0-3 
     array[array[qubit,2],2] | array[tuple[qubit,qubit],2] | array[S1,2] |
     tuple[array[qubit,2], qubit] | tuple[S1, qubit] | tuple[tuple[qubit,qubit], qubit] |
     S2{qs: array[qubit,2], q} | S4{t: tuple[qubit,qubit], q}
+or over *affine* values - non-copyable but droppable, and kept as one abstract object while tracing
+(`array[int, 0]`, `Option[array[int, 2]]`; a non-empty classical array is unpacked into a Python list of
+copyable ints, so it is not one non-copyable value any more):
+    array[int, 0] | Option[array[int, 2]] | tuple[array[int, 0], qubit] | array[Option[array[int, 2]], 2] |
+    tuple[Option[array[int, 2]], array[int, 0]] | S5{e: array[int, 0], q}
 and a body built from ownership events on *paths* (`p0`, `p0[1]`, `p1.qs[0]`, `v2.t[1]`, ...):
     borrow   h(P) / declared `use_<T>(P)`            (borrows every qubit inside P)
     consume  discard(P) / measure(P) / declared `eat_<T>(P @owned)`
@@ -24,6 +29,8 @@ broken borrowed lists / structs are refilled) so that the one interesting event 
 Oracle (a reference interpreter of the statements, written from the property statement; it never
 looks at guppylang).  A trace is linear, so the model is a counter per qubit object plus plain
 Python reference semantics for lists / tuples / struct objects:
+  * (an affine value is tracked like a qubit - at most one consuming use, live when lent or handed back - but
+    it may be dropped: it never leaks)
   * every qubit is live or consumed.  Passing a value to a function packs it: each qubit inside must
     be live and occur once (else `reuse`); an @owned parameter / discard / measure / return consumes
     them, a borrowing call leaves them live.
@@ -91,13 +98,17 @@ STRUCTS = {
     "S2": [("qs", ["arr", "q", 2]), ("q", "q")],
     "S3": [("q", "q"), ("n", "int")],
     "S4": [("t", ["tup", ["q", "q"]]), ("q", "q")],
+    "S5": [("e", "z"), ("q", "q")],
 }
 Q = "q"
+#: affine leaf types: non-copyable, droppable, not unpacked by tracing (one GuppyObject each)
+AFFINE = {"z": ("array[int, 0]", "a0int"), "o": ("Option[array[int, 2]]", "optarr")}
 PARAM_TYPES = [
     Q, ["arr", Q, 1], ["arr", Q, 2], ["arr", Q, 3], ["tup", [Q, Q]], ["st", "S1"], ["st", "S3"],
     ["arr", ["arr", Q, 2], 2], ["arr", ["tup", [Q, Q]], 2], ["arr", ["st", "S1"], 2],
     ["tup", [["arr", Q, 2], Q]], ["tup", [["st", "S1"], Q]], ["tup", [["tup", [Q, Q]], Q]],
     ["st", "S2"], ["st", "S4"],
+    "z", "o", ["tup", ["z", Q]], ["arr", "o", 2], ["tup", ["o", "z"]], ["st", "S5"],
 ]
 LIST_OPS = ["append", "extend", "insert", "pop", "popi", "remove", "clear", "reverse", "sort", "setitem",
             "setslice", "delitem", "delslice", "iadd", "imul"]
@@ -121,6 +132,8 @@ def ty_str(t):
         return "qubit"
     if t == "int":
         return "int"
+    if t in AFFINE:
+        return AFFINE[t][0]
     if t[0] == "arr":
         return f"array[{ty_str(t[1])}, {t[2]}]"
     if t[0] == "tup":
@@ -132,6 +145,8 @@ def ty_mangle(t):
     t = tt(t)
     if t in ("q", "int"):
         return t
+    if t in AFFINE:
+        return AFFINE[t][1]
     if t[0] == "arr":
         return f"a{t[2]}{ty_mangle(t[1])}"
     if t[0] == "tup":
@@ -151,10 +166,11 @@ class ModelError(Exception):
 
 
 class Atom:
-    __slots__ = ("id", "origin", "live", "events")
+    """one non-copyable object: a qubit (ty "q", must not be dropped) or an affine value (ty in AFFINE)"""
+    __slots__ = ("id", "origin", "live", "events", "ty")
 
-    def __init__(self, id_, origin):
-        self.id, self.origin, self.live, self.events = id_, origin, True, 0
+    def __init__(self, id_, origin, ty="q"):
+        self.id, self.origin, self.live, self.events, self.ty = id_, origin, True, 0, ty
 
 
 class GInt:
@@ -202,8 +218,8 @@ class Model:
     # ---------------------------------------------------------------- values
     def fresh(self, t, origin, frozen=False):
         t = tt(t)
-        if t == "q":
-            a = Atom(len(self.atoms), origin)
+        if t == "q" or t in AFFINE:
+            a = Atom(len(self.atoms), origin, t)
             self.atoms.append(a)
             return a
         if t == "int":
@@ -218,7 +234,7 @@ class Model:
         """type a value packs to, or None if packing is a type error (empty / incoherent list,
         struct field of the wrong type)"""
         if isinstance(v, Atom):
-            return "q"
+            return v.ty
         if isinstance(v, (int, GInt)):
             return "int"
         if isinstance(v, MList):
@@ -251,7 +267,7 @@ class Model:
     def pack(self, v, seen):
         for a in self.atoms_in(v):
             if not a.live or a.id in seen:
-                raise ModelError("reuse", f"qubit #{a.id} used after consumption")
+                raise ModelError("reuse", f"{'qubit' if a.ty == 'q' else ty_str(a.ty) + ' value'} #{a.id} used after consumption")
             seen.add(a.id)
             a.events += 1
 
@@ -426,7 +442,7 @@ class Model:
                 if a.id in seen:
                     a.live = False  # handed back to the caller
         for a in self.atoms:
-            if a.live:
+            if a.live and a.ty == "q":  # affine values are droppable
                 raise ModelError("leak", f"qubit #{a.id} ({a.origin}) neither consumed nor returned")
 
 
@@ -446,7 +462,8 @@ def run_model(case):
     info["nested_mut"] = m.nested_mut
     info["max_events"] = max([a.events for a in m.atoms], default=0)
     info["mut_log"] = m.mut_log
-    info["leak_origin"] = next((a.origin for a in m.atoms if a.live), None) if info["expect"] == "leak" else None
+    info["leak_origin"] = next((a.origin for a in m.atoms if a.live and a.ty == "q"), None) if info["expect"] == "leak" else None
+    info["affine_events"] = max([a.events for a in m.atoms if a.ty != "q"], default=0)
     info["nontrivial"] = info["max_events"] >= 2 or m.nested_mut
     return info
 
@@ -888,7 +905,7 @@ class Gen:
             for _ in range(40):
                 done = True
                 for p, x, _ in self.paths(4):
-                    if isinstance(x, Atom) and x.live and x.id not in but and any(x is a for a in m.atoms_in(v)):
+                    if isinstance(x, Atom) and x.ty == "q" and x.live and x.id not in but and any(x is a for a in m.atoms_in(v)):
                         if not self.emit({"k": "use", "f": "discard", "e": p, "ty": "q"}):
                             return False
                         done = False
@@ -938,7 +955,7 @@ class Gen:
         for _ in range(60):
             nxt = None
             for p, x, _ in self.paths(4):
-                if isinstance(x, Atom) and x.live and x.id not in keep and x.id not in borrowed:
+                if isinstance(x, Atom) and x.ty == "q" and x.live and x.id not in keep and x.id not in borrowed:
                     nxt = p
                     break
             if nxt is None or not self.emit({"k": "use", "f": "discard", "e": nxt, "ty": "q"}):
@@ -1043,6 +1060,8 @@ def describe(case, info):
         labels.append("nested_mutation")
     if info["max_events"] >= 2:
         labels.append("events>=2_on_one_qubit")
+    if info.get("affine_events"):
+        labels.append("affine_value:" + ("events>=2" if info["affine_events"] >= 2 else "1_event"))
     if case.get("ret") is not None:
         labels.append("returns_value")
     kinds = {s["k"] + ":" + (s.get("f") or s.get("op") or (s.get("e") or [""])[0]) for s in case["body"]}
@@ -1121,7 +1140,8 @@ def worker(ctx):
 
 SPEC = harness.Spec(
     PROP, worker, replay,
-    rule=("each shard first evaluates its slice of the product (15 parameter types of nesting depth <= 2) x "
+    rule=("each shard first evaluates its slice of the product (21 parameter types of nesting depth <= 2 over qubits and over "
+          "the affine - non-copyable, droppable, not unpacked - values array[int, 0] and Option[array[int, 2]]) x "
           "(owned, borrowed) x (every list / struct position inside the parameter) x (15 list mutations + struct "
           "field assignment, qubit and classical) x (direct path, local alias, element of a .copy()), each followed "
           "by a clean finalisation; then random straight-line bodies of 1-7 ownership events (borrow, consume, "
